@@ -1331,6 +1331,221 @@ def part_spectral(ctx, N):
                               fkey=FK_RHO if float(np.real(r2)) <= rho * 1.01 else None)
 
 
+# ------------------------------------------------------------------------------------------------
+# part I (E39): the Krylov process of _approximate_eigenvalues vs the Lean model run in binary64
+# ------------------------------------------------------------------------------------------------
+
+ARN_TOL_EPS = 200 * np.finfo(float).eps      # times prod_j (1 + ||A||_2 / H[j+1, j]): first-order error growth
+ARN_MAX_BOUND = 1e-6                         # beyond that only the shapes and the flag are compared
+BREAKDOWN = 1e6 * np.finfo(float).eps        # set_tol(float64)
+
+
+def _fbits(v):
+    from common import float_bits
+    return ','.join(str(float_bits(x)) for x in np.asarray(v, dtype=float).ravel())
+
+
+def _pbits(tok):
+    import struct
+    if tok == '-':
+        return []
+    return [np.array([struct.unpack('<d', struct.pack('<Q', int(t)))[0] for t in r.split(',')]) for r in tok.split(';')]
+
+
+def arn_matrix(rng, t):
+    n = int(rng.integers(1, 13))
+    kind = ['sym', 'gen', 'sym', 'lowgrade', 'spd', 'gen', 'nilpotent', 'sym'][t % 8]
+    M = rng.standard_normal((n, n))
+    if kind in ('sym', 'spd'):
+        M = (M + M.T) / 2
+        if kind == 'spd':
+            M = M @ M.T + 0.1 * np.eye(n)
+    elif kind == 'lowgrade':          # few distinct eigenvalues: the Krylov space is exhausted early (breakdown path)
+        k = int(rng.integers(1, n + 1))
+        Q, _ = np.linalg.qr(rng.standard_normal((n, n)))
+        lam = np.zeros(n)
+        lam[:k] = rng.integers(1, 4, size=k)
+        M = (Q * lam) @ Q.T
+        M = (M + M.T) / 2
+    elif kind == 'nilpotent':
+        M = np.triu(M, 1)
+    # 2e-10: the norms H[j+1, j] are of the size of the breakdown tolerance 1e6 eps (exercises the test itself)
+    M = M * float(rng.choice([1e-3, 1.0, 1.0, 50.0, 1.0, 2e-10]))
+    return np.ascontiguousarray(M), kind
+
+
+class _Recorder:
+    """wraps linalg._approximate_eigenvalues: the arguments and results of every call (one per restart cycle)"""
+
+    def __init__(self, L):
+        self.L, self.orig, self.calls = L, L._approximate_eigenvalues, []
+
+    def __enter__(self):
+        def wrapped(A, maxiter, symmetric=None, initial_guess=None):
+            n = A.shape[0]
+            if initial_guess is None:       # the code draws np.random.rand(n, 1): read it off the generator state
+                st = np.random.get_state()
+                v0 = np.random.rand(n, 1)
+                np.random.set_state(st)
+            else:
+                v0 = np.array(initial_guess).copy()
+            out = self.orig(A, maxiter, symmetric, initial_guess)
+            if np.iscomplexobj(v0) or np.iscomplexobj(out[2]):
+                self.calls.append({'complex': True})      # restart vector of a nonsymmetric matrix: outside the real model
+                return out
+            self.calls.append({'v0': v0.ravel().copy(), 'maxiter': int(maxiter), 'symmetric': bool(symmetric), 'n': n,
+                               'H': np.array(out[2], dtype=float), 'V': [np.array(v, dtype=float).ravel() for v in out[3]],
+                               'flag': bool(out[4]), 'm': int(len(out[1]))})
+            return out
+        self.L._approximate_eigenvalues = wrapped
+        return self
+
+    def __exit__(self, *a):
+        self.L._approximate_eigenvalues = self.orig
+
+
+def _arn_case(rng, t):
+    M, kind = arn_matrix(rng, t)
+    n = M.shape[0]
+    mode = ['direct', 'rho', 'direct', 'condest', 'direct', 'rho'][t % 6]
+    fmt = ['dense', 'csr', 'csc'][(t // 2) % 3]
+    c = {'op': 'arnoldi', 'mode': mode, 'kind': kind, 'n': n, 'fmt': fmt, 'M': _encv(M), 'seed': int(rng.integers(0, 2 ** 31 - 1))}
+    if t == 0:       # the example of Props/C19.lean: nilpotent matrix, one pass, estimate 12/25 although rho = 0
+        c.update(mode='rho', kind='nilpotent', n=2, fmt='dense', M=[0.0, 1.0, 0.0, 0.0], v0=[3.0, 4.0], maxiter=1, restart=0, tol=0.01)
+        return c
+    if mode == 'direct':
+        c['symmetric'] = bool(kind in ('sym', 'spd', 'lowgrade') and rng.random() < 0.6) or bool(rng.random() < 0.08)
+        c['maxiter'] = int(rng.choice([1, 2, 3, 5, n, n + 2, 15]))
+        c['v0'] = _encv(rng.random(n) + (0 if rng.random() < 0.8 else -0.5))
+    elif mode == 'rho':
+        c['maxiter'] = int(rng.choice([1, 2, 4, 15]))
+        c['restart'] = int(rng.choice([0, 1, 3, 5]))
+        c['tol'] = float(rng.choice([1e-1, 1e-2, 1e-6]))
+        c['v0'] = _encv(rng.random(n)) if rng.random() < 0.7 else None
+    else:
+        c['symmetric'] = bool(kind in ('sym', 'spd', 'lowgrade'))
+        c['maxiter'] = int(rng.choice([2, n, 25]))
+    return c
+
+
+def _arn_run(c):
+    """the real calls of one case: list of recorded _approximate_eigenvalues calls with the dense matrix of the operator"""
+    from pyamg.util import linalg as L
+    n = c['n']
+    M = _decv(c['M']).reshape(n, n)
+    A = M.copy() if c['fmt'] == 'dense' else sp.csr_array(M).asformat(c['fmt'])
+    v0 = None if c.get('v0') is None else _decv(c['v0']).reshape(n, 1)
+    np.random.seed(c['seed'])
+    res = None
+    with _Recorder(L) as rec, warnings.catch_warnings():
+        warnings.simplefilter('ignore')
+        if c['mode'] == 'direct':
+            L._approximate_eigenvalues(A, c['maxiter'], symmetric=c['symmetric'], initial_guess=v0.copy())
+        elif c['mode'] == 'rho':
+            res = float(np.real(L.approximate_spectral_radius(A, tol=c['tol'], maxiter=c['maxiter'], restart=c['restart'],
+                                                               initial_guess=None if v0 is None else v0.copy())))
+        else:
+            res = float(np.real(L.condest(A, maxiter=c['maxiter'], symmetric=c['symmetric'])))
+    op = M if not (c['mode'] == 'condest' and not c['symmetric']) else M.T @ M
+    return rec.calls, op, res
+
+
+def _arn_compare(call, op, reply):
+    """None / 'skip' / text describing the disagreement between the model reply and one recorded call.
+    Tolerance: bound_j = 200 eps prod_{i<j} (1 + ||A||_2 / H[i+1, i]) for column j and vector j (times ||A||_2 for
+    entries of H); nothing is compared once the bound exceeds 1e-6; the flag is compared unless the last subdiagonal
+    entry is within 10 bound ||A|| of the breakdown tolerance."""
+    if reply in ('none', 'bad-size', 'bad-op'):
+        return f'model answered {reply}'
+    f, vs, cols = reply.split(' ')
+    vs, cols = _pbits(vs), _pbits(cols)
+    H, V, m = call['H'], call['V'], call['m']
+    if not np.all(np.isfinite(H)) or m == 0:
+        return 'skip'
+    nA = max(float(np.linalg.norm(op, 2)), 1e-300)
+    hs = [float(H[j + 1, j]) for j in range(m)]
+    bounds = [ARN_TOL_EPS]
+    for h in hs:
+        bounds.append(bounds[-1] * (1 + nA / max(abs(h), 1e-300)))
+    # bounds[j]: tolerance for vector j and column j (both are computed from vectors 0 .. j)
+    if not bounds[m - 1] <= ARN_MAX_BOUND:
+        return 'skip'
+    undecided = abs(hs[-1] - BREAKDOWN) <= 10 * bounds[m - 1] * nA
+    if len(cols) != m and not undecided:
+        return f'{len(cols)} columns in the model, {m} in the code'
+    if len(cols) != m:
+        return 'skip'
+    for j, col in enumerate(cols):
+        if len(col) != j + 2:
+            return f'column {j} of the model has {len(col)} entries'
+        if np.abs(H[:j + 2, j] - col).max() > bounds[j] * nA:
+            return f'column {j} of H differs by {np.abs(H[:j + 2, j] - col).max():.3e} (tolerance {bounds[j] * nA:.3e})'
+        if np.abs(H[j + 2:, j]).max(initial=0.0) != 0.0:
+            return f'column {j} of H of the code has entries below row {j + 1}'
+    if undecided:
+        return None
+    if int(f) != int(call['flag']) or len(vs) != len(V):
+        return f'model: flag {f}, {len(vs)} vectors; code: flag {call["flag"]}, {len(V)} vectors'
+    first = m + 1 - len(V) if not (call['symmetric'] and call['flag']) else m - len(V)     # index of V[0] in the basis
+    for i, (a, b) in enumerate(zip(vs, V)):
+        j = first + i
+        if j == m and call['flag']:
+            # the vector appended at breakdown is normalised round-off: only its norm (1, or 0 when H[m, m-1] == 0) is compared
+            if abs(np.linalg.norm(a) - np.linalg.norm(b)) > 1e-8:
+                return f'the vector appended at breakdown has norm {np.linalg.norm(b)!r} in the code, {np.linalg.norm(a)!r} in the model'
+            continue
+        if not bounds[j] <= ARN_MAX_BOUND:
+            continue
+        if np.abs(a - b).max() > bounds[j]:
+            return f'vector {j} of the basis differs by {np.abs(a - b).max():.3e} (tolerance {bounds[j]:.3e})'
+    return None
+
+
+def part_arnoldi(ctx, N):
+    rng = ctx.np_rng
+    cases = [_arn_case(rng, t) for t in range(N)]
+    lines, owners = [], []
+    for c in cases:
+        try:
+            calls, op, res = _arn_run(c)
+        except Exception as e:
+            ctx.case(key=_key('arnoldi', c), nontrivial=c['n'] >= 2)
+            ctx.violation(f'{c["mode"]} call of the Krylov process ({c["kind"]}, n={c["n"]}, {c["fmt"]}) raised {type(e).__name__}: {e}', c)
+            continue
+        for k, call in enumerate(calls):
+            if call.get('complex'):
+                ctx.feat('arnoldi:complex-restart-vector-not-compared')
+                continue
+            rows = ';'.join(_fbits(r) for r in op)
+            lines.append(f'ext_c19_arnoldi {rows} {_fbits([BREAKDOWN])} {int(call["symmetric"])} {call["maxiter"]} {_fbits(call["v0"])}')
+            owners.append((c, k, call, op, res))
+    outs = _lean(ctx, lines) if lines else []
+    for (c, k, call, op, res), o in zip(owners, outs):
+        n = c['n']
+        ctx.case(key=_key('arnoldi', c['mode'], c['M'], c.get('v0'), c['seed'], c.get('maxiter'), c.get('restart'), c.get('symmetric'), k),
+                 nontrivial=n >= 2 and call['m'] >= 2)
+        ctx.feat('op:ext_c19_arnoldi')
+        ctx.feat(f'arnoldi:{c["mode"]}:{"lanczos" if call["symmetric"] else "arnoldi"}')
+        ctx.feat(f'arnoldi:breakdown={call["flag"]}')
+        if k > 0:
+            ctx.feat('arnoldi:restart-cycle')
+        bad = _arn_compare(call, op, o)
+        if bad == 'skip':
+            ctx.near_skipped += 1
+            ctx.feat('arnoldi:structure-only')
+            continue
+        if bad is None:
+            continue
+        ctx.corr('ext_c19_arnoldi', dict(c, cycle=k), o[:300], {'H': call['H'].tolist(), 'flag': call['flag']}, bad)
+        # the property on the real code for this input: Hermitian matrix => no Ritz value above the spectral radius
+        if np.array_equal(op, op.T) and call['m'] >= 1:
+            rho = float(np.abs(np.linalg.eigvalsh(op)).max())
+            ev = np.abs(np.linalg.eigvals(call['H'][:call['m'], :call['m']])).max()
+            if ev > rho * (1 + 1e-8) + 1e-14:
+                ctx.violation(f'_approximate_eigenvalues ({c["mode"]}, n={n}): largest Ritz value {ev!r} exceeds the spectral radius {rho!r}',
+                              dict(c, cycle=k), fkey=FK_RHO if ev <= rho * 1.01 else None)
+
+
 def cond_matrix(rng, t):
     n = int(rng.integers(1, 9))
     cplx = bool(rng.random() < 0.4)
@@ -1482,6 +1697,7 @@ def run(ctx):
     flush(ctx, items)              # one batch through the Lean driver
     part_spectral(ctx, q(240, 4000))
     part_cond(ctx, q(300, 6000))
+    part_arnoldi(ctx, q(240, 4000))
     _order(ctx)
 
 
@@ -1497,6 +1713,7 @@ def search(ctx):
     flush(ctx, items)
     part_spectral(ctx, 600)
     part_cond(ctx, 1000)
+    part_arnoldi(ctx, 600)
     _order(ctx)
 
 
@@ -1514,6 +1731,14 @@ def replay(ctx, data):
                 print(k, '=', build(case[k]).toarray().tolist() if case[k]['fmt'] != 'dense' else case[k]['data'])
     elif op == 'rho':
         print('re-run: np.random.seed(case["seed"]); approximate_spectral_radius of the matrix case["M"] (row major) with case["opts"]')
+    elif op == 'arnoldi':
+        calls, opm, res = _arn_run(case)
+        outs = _lean(ctx, [f'ext_c19_arnoldi {";".join(_fbits(r) for r in opm)} {_fbits([BREAKDOWN])} {int(cl["symmetric"])} '
+                           f'{cl["maxiter"]} {_fbits(cl["v0"])}' for cl in calls if not cl.get('complex')])
+        for k, (cl, o) in enumerate(zip([cl for cl in calls if not cl.get('complex')], outs)):
+            print(f'cycle {k}: flag {cl["flag"]}, {cl["m"]} columns, comparison with the model:', _arn_compare(cl, opm, o))
+            print('  H (code) =', cl['H'][:cl['m'] + 1, :cl['m']].tolist())
+        print('returned value:', res)
     elif op == 'condest':
         from pyamg.util import linalg as L
         n = case['n']
